@@ -330,3 +330,43 @@ Qed.
 Theorem C01vm_side_conditions : forall tco q raw, c01vm2.Compile.compile_raw_g tco q = Some raw -> c01vm2.Compile.side_okb raw = true.
 Proof. exact c01vm2.Peep.side_okb_raw. Qed.
 Print Assumptions C01vm_side_conditions.
+
+(* ---- non-vacuity for the constructs added to F2: object construction (generators in a key and in a value, the
+   shorthand forms, a key that is not a string caught by try), destructuring `as` (nested array / object pattern, `$x: p`;
+   a failing pattern), computed index and slice.  Each on the FINAL code (Compile.compile) and on the denotation. ----
+     5 as $x | {("a","b"): (1,2), c: ., $x}       on 7       -> {"a":1,"c":7,"x":5} {"a":2,..} {"b":1,..} {"b":2,..}
+     try {("a",1): .} catch 0                     on 7       -> {"a":7}, 0
+     . as [$a, {b: $c, $d: [$e]}] | [$a,$c,$d,$e] on [1,{"b":2,"d":[3]}] -> [1,2,[3],3];   on 5: an error
+     [.[(0,1)], .[1:length]]                      on [10,20,30] -> [10,20,[20,30]] *)
+Example C01vm_constructs_nonvacuous :
+  let num z := c01vm2.Syntax.QConst (c01vm2.Syntax.VNum z) in
+  let str c := c01vm2.Syntax.QConst (c01vm2.Syntax.VStr [c]) in
+  let obs q v := (option_map (fun c => c01vm2.VM.run c01vm2.Natives.cnat c 5000 (c01vm2.VM.init c v)) (c01vm2.Compile.compile q),
+                  c01vm2.Den.den c01vm2.Natives.cnat 10 q [] v) in
+  let q1 := c01vm2.Syntax.QBind (num 5%Z) 0%N
+              (c01vm2.Syntax.QObject [(inr (c01vm2.Syntax.QComma (str 97%N) (str 98%N)), c01vm2.Syntax.QComma (num 1%Z) (num 2%Z));
+                                      (inl [99%N], c01vm2.Syntax.QId); (inl [120%N], c01vm2.Syntax.QVar 0%N)]) in
+  let o1 k z := c01vm2.Syntax.VObj [([k], c01vm2.Syntax.VNum z); ([99%N], c01vm2.Syntax.VNum 7); ([120%N], c01vm2.Syntax.VNum 5)] in
+  let q1e := c01vm2.Syntax.QTry (c01vm2.Syntax.QObject [(inr (c01vm2.Syntax.QComma (str 97%N) (num 1%Z)), c01vm2.Syntax.QId)]) (Some (num 0%Z)) in
+  let pat := c01vm2.Syntax.PArr (c01vm2.Syntax.ACons (c01vm2.Syntax.PVar 1%N) (c01vm2.Syntax.ACons
+               (c01vm2.Syntax.PObj (c01vm2.Syntax.OKey [98%N] (c01vm2.Syntax.PVar 2%N)
+                  (c01vm2.Syntax.OKeyVar [100%N] 3%N (c01vm2.Syntax.PArr (c01vm2.Syntax.ACons (c01vm2.Syntax.PVar 4%N) c01vm2.Syntax.ANil)) c01vm2.Syntax.ONil)))
+               c01vm2.Syntax.ANil)) in
+  let var x := c01vm2.Syntax.QVar x in
+  let q2 := c01vm2.Syntax.QBindP c01vm2.Syntax.QId pat
+              (c01vm2.Syntax.QArray (c01vm2.Syntax.QComma (c01vm2.Syntax.QComma (c01vm2.Syntax.QComma (var 1%N) (var 2%N)) (var 3%N)) (var 4%N))) in
+  let v2 := c01vm2.Syntax.VArr [c01vm2.Syntax.VNum 1; c01vm2.Syntax.VObj [([98%N], c01vm2.Syntax.VNum 2); ([100%N], c01vm2.Syntax.VArr [c01vm2.Syntax.VNum 3])]] in
+  let q3 := c01vm2.Syntax.QArray (c01vm2.Syntax.QComma (c01vm2.Syntax.QIndexQ c01vm2.Syntax.QId (c01vm2.Syntax.QComma (num 0%Z) (num 1%Z)))
+                                    (c01vm2.Syntax.QSlice c01vm2.Syntax.QId (num 1%Z) (c01vm2.Syntax.QCall0 c01vm2.Syntax.F0Length))) in
+  let v3 := c01vm2.Syntax.VArr [c01vm2.Syntax.VNum 10; c01vm2.Syntax.VNum 20; c01vm2.Syntax.VNum 30] in
+  let r1 := [o1 97%N 1%Z; o1 97%N 2%Z; o1 98%N 1%Z; o1 98%N 2%Z] in
+  let r1e := [c01vm2.Syntax.VObj [([97%N], c01vm2.Syntax.VNum 7)]; c01vm2.Syntax.VNum 0] in
+  let r2 := [c01vm2.Syntax.VArr [c01vm2.Syntax.VNum 1; c01vm2.Syntax.VNum 2; c01vm2.Syntax.VArr [c01vm2.Syntax.VNum 3]; c01vm2.Syntax.VNum 3]] in
+  let r3 := [c01vm2.Syntax.VArr [c01vm2.Syntax.VNum 10; c01vm2.Syntax.VNum 20; c01vm2.Syntax.VArr [c01vm2.Syntax.VNum 20; c01vm2.Syntax.VNum 30]]] in
+  obs q1 (c01vm2.Syntax.VNum 7) = (Some (r1, c01vm2.VM.End), (r1, None)) /\
+  obs q1e (c01vm2.Syntax.VNum 7) = (Some (r1e, c01vm2.VM.End), (r1e, None)) /\
+  obs q2 v2 = (Some (r2, c01vm2.VM.End), (r2, None)) /\
+  obs q2 (c01vm2.Syntax.VNum 5) = (Some ([], c01vm2.VM.Error (c01vm2.VM.VE (c01vm2.VM.EM []))),
+                                   ([], Some (c01vm2.Den.XErr (c01vm2.Syntax.EMsg [])))) /\
+  obs q3 v3 = (Some (r3, c01vm2.VM.End), (r3, None)).
+Proof. vm_compute. repeat split; reflexivity. Qed.
